@@ -5,6 +5,11 @@
 // headers, bodies; redirects; failing reads / closes / transports; the caller's context ending)
 // by clients built with an ECDSA P-256 key, an RSA-2048 key and without a key.  The harness is
 // its own log: it builds the RFC 6962 signature inputs from the RFC text and signs them.
+// Besides calls on fresh clients there are HISTORIES of calls on one client (history_test.go): a
+// response is held to the same statement whatever the client was served before (replayed
+// signature bytes under forged fields, responses accepted for one submission or endpoint served
+// for another).  get-entries answers and submitted chains include certificates with tolerated
+// quirks (non-fatal X.509 parse errors; candidates probed against the parser, fixtures_test.go).
 //
 // One case = the HTTP outcome(s) the transport produced (reconstructed from the transport's own
 // log), the oracle tables (signature pairs that verify under the configured key, verified HERE
@@ -34,7 +39,7 @@ func TestHarness(t *testing.T) {
 	}
 	log.SetOutput(io.Discard) // the temporal client's default logger
 	r := lib.Rand()
-	w := lib.NewWriter(header, 60)
+	w := lib.NewWriter(header, 40) // small shards: the get-entries cases carry whole certificates
 	fx := buildFixtures()
 	extra := lib.Count(1, 8) // how many times the grids are repeated with fresh random field values
 
@@ -44,6 +49,7 @@ func TestHarness(t *testing.T) {
 		genAddChain(t, r, w, fx, configs, rep)
 		genEntries(t, r, w, fx, rep)
 		genOthers(t, r, w, fx, rep)
+		genHistories(t, r, w, fx, configs, rep)
 	}
 	w.Close()
 }
@@ -56,10 +62,10 @@ func genSTH(t *testing.T, r randT, w *lib.Writer, fx *fixtures, configs []*logKe
 		}
 		vs, good := sthVariants(r, signer, foreign)
 		for _, v := range vs {
-			w.Add(caseGetSTH(t, key, r.Intn(2) == 0, v))
+			w.Add(caseGetSTH(t, nil, key, r.Intn(2) == 0, v))
 		}
 		for _, v := range httpFaults(r, good) {
-			w.Add(caseGetSTH(t, key, r.Intn(2) == 0, v))
+			w.Add(caseGetSTH(t, nil, key, r.Intn(2) == 0, v))
 		}
 	}
 }
